@@ -361,8 +361,8 @@ pub fn run(cfg: &Cfg) -> Report {
     let seed = cfg.seed;
     // (A) every labelled valid set (connected or not) at the exhaustive bounds, with branchings
     let bounds: Vec<(usize, usize)> = match cfg.tier {
-        crate::monitor::Tier::Quick => vec![(1, 5), (2, 4), (3, 3)],
-        crate::monitor::Tier::Thorough => vec![(1, 7), (2, 5), (3, 4), (4, 3)],
+        crate::monitor::Tier::Quick => vec![(1, 6), (2, 5), (3, 4), (4, 3)],
+        crate::monitor::Tier::Thorough => vec![(1, 8), (2, 6), (3, 5), (4, 4)],
     };
     for &(dim, nmax) in &bounds {
         for n in 1..=nmax {
@@ -452,7 +452,7 @@ pub fn run(cfg: &Cfg) -> Report {
 
     // (C) large sets: iterated orientation double covers of small sets, randomly renumbered
     let bases: Vec<MSym> = gen::connected_sets_upto(2, 4).into_iter().chain(gen::connected_sets_upto(3, 3)).collect();
-    let nbig = cfg.tier.pick(60, 600);
+    let nbig = cfg.tier.pick(200, 2000);
     let ctx = par_range(cfg, nbig, |ctx, k| {
         let mut rng = Rng::stream(seed, 0x02_8000 + k as u64);
         let mut m = bases[k % bases.len()].clone();
@@ -485,7 +485,7 @@ pub fn run(cfg: &Cfg) -> Report {
     report.absorb(ctx);
 
     // (D) incomplete sets: no-panic only
-    let ctx = par_range(cfg, cfg.tier.pick(2000, 40000), |ctx, k| {
+    let ctx = par_range(cfg, cfg.tier.pick(20_000, 400_000), |ctx, k| {
         let mut rng = Rng::stream(seed, 0x02_c000 + k as u64);
         let base = &bases[k % bases.len()];
         let mut m = base.clone();
